@@ -12,6 +12,7 @@
   candidate scored higher.
 -/
 import Distill.Proofs.Pagination
+import Distill.Proofs.PageGroups
 import Distill.Gen.Funcs
 namespace Distill.C16
 open Distill.Pg
@@ -81,6 +82,23 @@ theorem prevnext_allowed (allowed : String → Prop) (banned : List String) (cs 
   rcases prevnext_is_candidate banned cs with h0 | ⟨c, hc, he, _, _⟩
   · exact Or.inl h0
   · exact Or.inr (he ▸ h c hc)
+
+/-- **The groups the detection reads.**  Whatever sequence of AddGroup / AddPageInfo calls the
+DOM scan makes (CleanUp last), every group it leaves is non-empty and strictly monotonic in
+the direction it records (a single entry records none) — the shape `DetectParamInfo` relies
+on when it reverses descending groups and indexes the ascending numbers. -/
+theorem scan_groups_ok (ops : List GOp) (h : NoCleanUp ops) :
+    ∀ g ∈ (runOps (ops ++ [GOp.cleanUp])).groups, GroupOk g ∧ g.list ≠ [] :=
+  Pg.scan_groups_ok ops h
+
+/-- … and while it is being built, the remembered previous entry is the last entry of the
+group being filled, so `AddPageInfo`'s read of `prevPageInfo` is never a nil dereference -/
+theorem scan_prev_never_nil (ops : List GOp) (h : NoCleanUp ops) : Inv (runOps ops) :=
+  Pg.runOps_inv ops h
+
+example : (runOps [.addGroup, .add ⟨3, "a"⟩, .add ⟨2, ""⟩, .add ⟨2, "b"⟩, .add ⟨5, "c"⟩, .cleanUp]).groups.map
+      (fun g => (g.list, g.deltaSign)) =
+    [([⟨3, "a"⟩, ⟨2, ""⟩], -1), ([⟨2, "b"⟩, ⟨5, "c"⟩], 1)] := by decide +kernel
 
 /-- **Tie.**  The scanning half of `PageNumberFinder.FindOutlink` (which hook
 `VerifNumberGroups` repeats to show the groups before detection rewrites them) and the two
